@@ -32,16 +32,23 @@ inductive BExpr where
   | lor (a b : BExpr)
   deriving Repr
 
-inductive Stmt where
-  | skip
-  | seq (a b : Stmt)
-  | assign (x : Nat) (e : Expr)
-  | print (e : Expr)
-  | ite (c : BExpr) (t e : Stmt)
-  | loop (c : BExpr) (body post : Stmt)     -- for ; c ; post { body }
-  | brk
-  | cont
-  deriving Repr
+mutual
+  inductive Stmt where
+    | skip
+    | seq (a b : Stmt)
+    | assign (x : Nat) (e : Expr)
+    | print (e : Expr)
+    | ite (c : BExpr) (t e : Stmt)
+    | loop (c : BExpr) (body post : Stmt)     -- for ; c ; post { body }
+    | brk
+    | cont
+    | switch (cs : Clauses)                   -- switch { case c1: … ; case c2: … ; default: … }
+  /-- clauses in source order; `switch tag { case v: }` is `case tag == v`, a (last) `default` is a
+      clause whose condition is constant true; `fall` = the clause body ends in `fallthrough` -/
+  inductive Clauses where
+    | nil
+    | cons (c : BExpr) (body : Stmt) (fall : Bool) (rest : Clauses)
+end
 
 /-- variables by index, and the output so far (most recent last) -/
 structure St where
@@ -96,6 +103,7 @@ def BExpr.eval (s : St) : BExpr → Option Bool
 inductive Sig where | normal | brk | cont | panic
   deriving Repr, DecidableEq
 
+mutual
 /-- big-step execution; `none` = fuel exhausted -/
 def exec : Nat → Stmt → St → Option (Sig × St)
   | 0, _, _ => none
@@ -134,5 +142,32 @@ def exec : Nat → Stmt → St → Option (Sig × St)
       | none => none
   | _ + 1, .brk, s => some (.brk, s)
   | _ + 1, .cont, s => some (.cont, s)
+  | f + 1, .switch cs, s =>
+    match execClauses f cs s with
+    | some (.brk, s1) => some (.normal, s1)        -- `break` inside a switch leaves the switch
+    | r => r
+
+/-- clauses are tested in source order; the first true condition selects its body -/
+def execClauses : Nat → Clauses → St → Option (Sig × St)
+  | 0, _, _ => none
+  | _ + 1, .nil, s => some (.normal, s)
+  | f + 1, .cons c body fall rest, s =>
+    match c.eval s with
+    | none => some (.panic, s)
+    | some false => execClauses f rest s
+    | some true =>
+      match exec f body s with
+      | some (.normal, s1) => if fall then execFall f rest s1 else some (.normal, s1)
+      | r => r
+
+/-- after `fallthrough`: the next clause's body runs without its test -/
+def execFall : Nat → Clauses → St → Option (Sig × St)
+  | 0, _, _ => none
+  | _ + 1, .nil, s => some (.normal, s)
+  | f + 1, .cons _ body fall rest, s =>
+    match exec f body s with
+    | some (.normal, s1) => if fall then execFall f rest s1 else some (.normal, s1)
+    | r => r
+end
 
 end YaegiVerif.Core
